@@ -538,3 +538,27 @@ SPECS["C12"] = Spec(
                          "roundtrip_path_len": 5 if tier == "quick" else 7},
     rule="one job per route; every assignment of presence/values; plus routing round-trip jobs",
 )
+
+
+# --------------------------------------------------------------------------- C11
+def c11_jobs(tier, seed):
+    # mask: which of the 9 template statements are symbolic (the others off); lens: symbolic list lengths
+    if tier == "quick":
+        masks = [("111100010", 0), ("001111000", 0), ("001000101", 1), ("000000101", 1), ("100001011", 0)]
+    else:
+        masks = [("111111010", 0), ("111100110", 1), ("001111001", 1), ("101000111", 1), ("010110101", 0), ("111111111", 0)]
+    return [{"pkg_short": "flamego", "body": "VH_C11_program", "params": {"mask": m, "lens": l}, "max_paths": 3000000} for m, l in masks]
+
+
+SPECS["C11"] = Spec(
+    "C11", ["route/parse.go", "flamego/router.go", "route/oracle.go", "route/oracle_api.go", "flamego/c12.go", "flamego/c11.go"], c11_jobs,
+    assumptions=[
+        "real router: Group/Route/Get/Post/Delete/Any/Routes (both spellings)/AutoHead/Combo/ComboRoute.*, validateAndWrapHandlers, addRoute, ServeHTTP; the context is an observer that runs the marker handlers it is given",
+        "program template with three nesting levels; every statement guarded by a symbolic bool, handler lists of symbolic length 0..2, every caller slice created with exact or spare capacity (symbolic), AutoHead toggled at symbolic points",
+        "after the whole program ran, every (method, path) of the template (plus look-alikes without their group prefix) is requested: the handler ids observed must be the flat expansion's (outer group, inner group, own) or the not-found chain",
+        "same chosen route / order / parameters for arbitrary requests then follows from C01-C03, decided on flat registrations (composition is an argument, not a query)",
+        "a group function that panics is outside the claim",
+    ],
+    bounds=lambda tier: {"nesting": 3, "statements": "9 template statements; per job a subset (mask) is symbolic, the others off", "handler_list_len": "0..2 (jobs with lens=1) else 1", "spare_capacity": "0 or 2 (symbolic)"},
+    rule="every combination of statement guards, list lengths, capacity and AutoHead toggles of the template",
+)
